@@ -314,8 +314,17 @@ def unit_pair(imod, icls, smod, scls, two=False):
 
     with patched_globals(smodule, dict(MATH_TABLE)):
         for path in explore(run, stats=stats, max_paths=400):
-            if isinstance(path.exc, ZeroDivisionError):
-                continue
+            if isinstance(path.exc, ZeroDivisionError) or (
+                    isinstance(path.exc, ValueError) and
+                    "math domain error" in str(path.exc)):
+                continue      # the stepper's own arithmetic leaves its domain
+            if isinstance(path.exc, TypeError) and \
+                    "interpreted as an integer" in str(path.exc):
+                # the stepper indexes with a property value (body ids): the
+                # real-valued model arrays cannot encode it
+                out["skipped"] = "not encodable: %s indexes an array with " \
+                    "a property value (%s)" % (scls, path.exc)
+                break
             if path.exc is not None:
                 out.setdefault("harness_errors", []).append(
                     "%s: %r" % (out["unit"], path.exc))
